@@ -106,6 +106,10 @@ pub enum Op {
     PopRoot,
     WithInner(u8, u8),
     RequireT(u8),
+    ParentMutWrite(u8, u8),
+    MultiPanicking(u8, u8, u8),
+    EntryOrInsertWrite(u8, u8, u8),
+    FindMutInsert(u8, u8),
 }
 
 impl Op {
@@ -123,7 +127,8 @@ impl Op {
             | EntryOrInsertWith(t, _) | EntryOrDefault(t) | EntryAndModify(t) | EntryAndModifyValue(t)
             | EntryAndModifyOrInsert(t, _) | EntryOccGet(t) | EntryOccGetMutWrite(t, _)
             | EntryOccIntoMutWrite(t, _) | EntryOccInsert(t, _) | EntryOccRemove(t) | EntryVacInsert(t, _)
-            | WithInner(t, _) | RequireT(t) | Multi(t, _, _) => Some(*t),
+            | WithInner(t, _) | RequireT(t) | Multi(t, _, _) | ParentMutWrite(t, _) | MultiPanicking(t, _, _)
+            | EntryOrInsertWrite(t, _, _) | FindMutInsert(t, _) => Some(*t),
             _ => None,
         }
     }
@@ -316,6 +321,41 @@ impl Model {
                     R::Missing
                 }
             }
+            ParentMutWrite(t, v) => {
+                // through parent_mut(): the innermost scope *below the top* holding T
+                let n = self.scopes.len();
+                if n < 2 {
+                    return R::Bool(false);
+                }
+                match (0..n - 1).rev().find(|&i| self.scopes[i].contains_key(&t)) {
+                    Some(i) => R::Opt(self.scopes[i].insert(t, v)),
+                    None => R::Opt(None),
+                }
+            }
+            MultiPanicking(t, u, v) => {
+                if t == u || self.get(t).is_none() || self.get(u).is_none() {
+                    R::Panic
+                } else {
+                    let old = self.set(t, v).unwrap();
+                    R::Pair(old, self.get(u).unwrap())
+                }
+            }
+            EntryOrInsertWrite(t, v, w) => {
+                let r = match self.get(t) {
+                    Some(x) => R::Occ(Some(x)),
+                    None => {
+                        self.top().insert(t, v);
+                        R::Vac(Some(v))
+                    }
+                };
+                self.set(t, w);
+                r
+            }
+            FindMutInsert(t, v) => match self.find(t) {
+                // insert into the registry returned by find_mut: replaces the value in that scope
+                Some(i) => R::Opt(self.scopes[i].insert(t, v)),
+                None => R::NotFound,
+            },
         }
     }
 }
@@ -532,6 +572,32 @@ fn apply_t<T: Cell>(st: &mut St, op: &Op) -> R {
             Ok(()) => R::Unit,
             Err(e) => err_class(&e),
         },
+        ParentMutWrite(_, v) => match st.parent_mut() {
+            None => R::Bool(false),
+            Some(p) => match p.get_mut::<T>() {
+                Some(r) => {
+                    let old = **r;
+                    **r = v;
+                    R::Opt(Some(old))
+                }
+                None => R::Opt(None),
+            },
+        },
+        EntryOrInsertWrite(_, v, w) => {
+            let occ = matches!(st.entry::<T>(), Entry::Occupied(_));
+            let mut r = st.entry::<T>().or_insert(T::from(v));
+            let seen = **r;
+            **r = w;
+            if occ {
+                R::Occ(Some(seen))
+            } else {
+                R::Vac(Some(seen))
+            }
+        }
+        FindMutInsert(_, v) => match st.find_mut::<T>() {
+            Ok(r) => R::Opt(r.insert(T::from(v)).map(|x| *x)),
+            Err(e) => err_class(&e),
+        },
         _ => unreachable!(),
     }
 }
@@ -593,6 +659,15 @@ pub fn apply_impl(st: &mut Option<St>, op: &Op) -> R {
             let s = st.as_mut().unwrap();
             dispatch!(*t, T => dispatch!(*u, U => apply_multi::<T, U>(s, *v)))
         }
+        MultiPanicking(t, u, v) => {
+            let s = st.as_mut().unwrap();
+            dispatch!(*t, T => dispatch!(*u, U => {
+                let (a, b) = s.get_multiple_mut::<(T, U)>();
+                let old = **a;
+                **a = *v;
+                R::Pair(old, **b)
+            }))
+        }
         _ => {
             let t = op.ty().unwrap();
             let s = st.as_mut().unwrap();
@@ -653,8 +728,12 @@ pub fn all_ops(ntypes: u8, depth: usize, core_only: bool) -> Vec<Op> {
         v.push(EntryVacInsert(t, 1));
         v.push(WithInner(t, 1));
         v.push(RequireT(t));
+        v.push(ParentMutWrite(t, 2));
+        v.push(EntryOrInsertWrite(t, 0, 2));
+        v.push(FindMutInsert(t, 1));
         for u in 0..ntypes {
             v.push(Multi(t, u, 2));
+            v.push(MultiPanicking(t, u, 0));
         }
     }
     v.push(Parent);
@@ -821,6 +900,10 @@ fn parse_op(v: &Value) -> Result<Op, String> {
         "PopRoot" => PopRoot,
         "WithInner" => WithInner(a(0), a(1)),
         "RequireT" => RequireT(a(0)),
+        "ParentMutWrite" => ParentMutWrite(a(0), a(1)),
+        "MultiPanicking" => MultiPanicking(a(0), a(1), a(2)),
+        "EntryOrInsertWrite" => EntryOrInsertWrite(a(0), a(1), a(2)),
+        "FindMutInsert" => FindMutInsert(a(0), a(1)),
         other => return Err(format!("unknown op {}", other)),
     })
 }
